@@ -7,6 +7,13 @@ import PoaVerif.Facts
 -/
 namespace PoaVerif.Props.C17
 
+/-- genesis import and export move the pending list as it is; admission converts the stored application
+    (`ConvertPOAToStaking`, see `Props.C10.facts_admission`) -/
+theorem facts_genesis :
+    Generated.initGenesisCalls = ["k.PendingValidators.Set", "k.CachedBlockPower.Set", "k.AbsoluteChangedInBlockPower.Set"] ∧
+    Generated.exportGenesisCalls = ["k.PendingValidators.Get", "k.PendingValidators.Get(ctx)", "return &poa.GenesisState{ Vals: vals.Validators, }"] ∧
+    "ConvertPOAToStaking" ∈ Generated.acceptNewValidatorCalls := by decide
+
 /-! ### the two records have the same fields (an SDK upgrade adding a field breaks this) -/
 
 theorem facts_same_fields :
